@@ -135,7 +135,7 @@ func encodeBody(g Graph, st Val, body []byte) ([]byte, error) {
 
 // streamDict builds the real dictionary of a stream: the ordinary entries,
 // and /Filter, /DecodeParms with a leading /Crypt filter where cf asks for it.
-func streamDict(st Val) obj.Dict {
+func streamDict(st Val, cryptName, cryptParms obj.Value) obj.Dict {
 	d := toObj(st).(obj.Dict)
 	if st.CF == "default" || st.CF == "" {
 		return d
@@ -158,9 +158,21 @@ func streamDict(st Val) obj.Dict {
 	if st.CF == "named" {
 		name = "StdCF"
 	}
-	d["Filter"] = append(obj.Array{obj.Name("Crypt")}, fs...)
-	d["DecodeParms"] = append(obj.Array{obj.Dict{"Type": obj.Name("CryptFilterDecodeParms"), "Name": name}}, ps...)
+	if cryptName == nil {
+		cryptName, cryptParms = obj.Name("Crypt"), cryptParmsDict(st.CF)
+	}
+	_ = name
+	d["Filter"] = append(obj.Array{cryptName}, fs...)
+	d["DecodeParms"] = append(obj.Array{cryptParms}, ps...)
 	return d
+}
+
+func cryptParmsDict(cf string) obj.Dict {
+	name := obj.Name("Identity")
+	if cf == "named" {
+		name = "StdCF"
+	}
+	return obj.Dict{"Type": obj.Name("CryptFilterDecodeParms"), "Name": name}
 }
 
 func hasExplicitCrypt(g Graph) bool {
@@ -188,7 +200,14 @@ func hasIndirectSpec(g Graph) bool {
 // writerCan tells whether go-pdf's own Writer can produce the source file
 // (it inlines /Filter and /DecodeParms and cannot write explicit /Crypt
 // filters).
-func writerCan(g Graph) bool { return !hasExplicitCrypt(g) && !hasIndirectSpec(g) }
+func writerCan(g Graph) bool {
+	for _, nd := range g {
+		if nd.Twin != 0 {
+			return false // needs objects with a generation > 0
+		}
+	}
+	return !hasExplicitCrypt(g) && !hasIndirectSpec(g)
+}
 
 // Materialise writes the graph as a source file.  Numbers of dangling
 // objects are moved beyond /Size (or, by seed, referenced with a generation
@@ -204,6 +223,20 @@ func Materialise(g0 Graph, spec SrcSpec) (*Source, error) {
 		}
 	}
 	for n, nd := range g0 {
+		if nd.Twin != 0 {
+			// a reference with the number of object Twin and another generation
+			if rng.Intn(2) == 0 {
+				src.Renumber[n] = nd.Twin + genBase // generation 1 never existed
+			} else {
+				src.Renumber[n] = nd.Twin            // the stale generation 0 of a number that was
+				src.Renumber[nd.Twin] = nd.Twin + genBase // freed and is in use again with generation 1
+			}
+		}
+	}
+	for n, nd := range g0 {
+		if nd.Twin != 0 {
+			continue
+		}
 		if nd.K == "dangling" {
 			if src.DangGen {
 				src.Renumber[n] = n + genBase // generation 1 of an object that exists with generation 0
@@ -235,26 +268,36 @@ func Materialise(g0 Graph, spec SrcSpec) (*Source, error) {
 	}
 	g := Graph{}
 	for n, nd := range g0 {
+		if nd.Twin != 0 {
+			continue // not an object
+		}
 		switch nd.K {
 		case "val":
 			v := renVal(*nd.V)
-			g[n] = Node{K: "val", V: &v}
+			g[ren(n)] = Node{K: "val", V: &v}
 		case "ref":
-			g[n] = Node{K: "ref", To: ren(nd.To)}
+			g[ren(n)] = Node{K: "ref", To: ren(nd.To)}
 		case "dangling":
 			if src.DangGen {
 				v := sc("i:999")
 				g[n] = Node{K: "val", V: &v} // the generation 0 object nobody refers to
 			}
 		default:
-			g[n] = Node{K: "free"}
+			if ren(n) == n {
+				g[n] = Node{K: "free"}
+			} else {
+				v := nul()
+				g[ren(n)] = Node{K: "val", V: &v} // a reused number needs an object
+			}
 		}
 	}
 	src.Graph = g
 
 	// real values
 	vals := map[int]obj.Value{}
-	for n, nd := range g {
+	extra := max + 3 // numbers for indirect /Crypt names and parameters (after catalog and pages)
+	for _, n := range g.nums() {
+		nd := g[n]
 		switch nd.K {
 		case "val":
 			if nd.V.T == "st" {
@@ -264,7 +307,13 @@ func Materialise(g0 Graph, spec SrcSpec) (*Source, error) {
 					return nil, fmt.Errorf("stream %d: %v", n, err)
 				}
 				src.Bodies[n] = body
-				vals[n] = &obj.Stream{Dict: streamDict(*nd.V), Raw: raw}
+				var cn, cp obj.Value
+				if nd.V.CFI && nd.V.CF != "default" && nd.V.CF != "" {
+					vals[extra], vals[extra+1] = obj.Name("Crypt"), cryptParmsDict(nd.V.CF)
+					cn, cp = obj.Ref{Num: uint32(extra)}, obj.Ref{Num: uint32(extra + 1)}
+					extra += 2
+				}
+				vals[n] = &obj.Stream{Dict: streamDict(*nd.V, cn, cp), Raw: raw}
 			} else {
 				vals[n] = toObj(*nd.V)
 			}
@@ -280,7 +329,7 @@ func Materialise(g0 Graph, spec SrcSpec) (*Source, error) {
 	if spec.Via == "writer" {
 		err = src.viaWriter(g, vals, spec, catalog, pages)
 	} else {
-		err = src.viaSer(g, vals, spec, rng, catalog, pages)
+		err = src.viaSer(g, vals, spec, rng, catalog, extra)
 	}
 	if err != nil {
 		return nil, err
@@ -288,7 +337,7 @@ func Materialise(g0 Graph, spec SrcSpec) (*Source, error) {
 	return src, nil
 }
 
-func (src *Source) viaSer(g Graph, vals map[int]obj.Value, spec SrcSpec, rng *rand.Rand, catalog, pages int) error {
+func (src *Source) viaSer(g Graph, vals map[int]obj.Value, spec SrcSpec, rng *rand.Rand, catalog, free int) error {
 	crypt := hasExplicitCrypt(g)
 	var p secure.Params
 	switch spec.Enc {
@@ -319,30 +368,49 @@ func (src *Source) viaSer(g Graph, vals map[int]obj.Value, spec SrcSpec, rng *ra
 	if src.Version >= "1.5" && rng.Intn(2) == 0 {
 		kind = ser.Stream
 	}
-	rev := ser.Revision{Kind: kind, Trailer: obj.Dict{"Root": obj.Ref{Num: uint32(catalog)}}}
+	trailer := func() obj.Dict { return obj.Dict{"Root": obj.Ref{Num: uint32(catalog)}} }
+	rev := ser.Revision{Kind: kind, Trailer: trailer()}
 	nums := make([]int, 0, len(vals))
 	for n := range vals {
 		nums = append(nums, n)
 	}
-	for _, n := range Graph(nil).sorted(nums) {
+	defineOp := func(n int, inObjStm bool) ser.Op {
 		v := vals[n]
-		op := ser.Op{Num: uint32(n), Kind: ser.Define, Value: v}
+		op := ser.Op{Num: uint32(n % genBase), Kind: ser.Define, Value: v}
 		_, isStream := v.(*obj.Stream)
 		_, isRef := v.(obj.Ref)
 		switch {
 		case isStream:
 			op.Length = []ser.LengthMode{ser.LenDirect, ser.LenIndirect}[rng.Intn(2)]
-		case kind == ser.Stream && !isRef && rng.Intn(3) == 0:
+		case inObjStm && kind == ser.Stream && !isRef && rng.Intn(3) == 0:
 			op.InObjStm = true
 		}
-		rev.Ops = append(rev.Ops, op)
+		return op
 	}
-	for n, nd := range g {
-		if nd.K == "free" {
+	var reused []int // objects with generation 1: the number is defined, freed and defined again
+	for _, n := range Graph(nil).sorted(nums) {
+		if n >= genBase {
+			reused = append(reused, n)
+			rev.Ops = append(rev.Ops, ser.Op{Num: uint32(n % genBase), Kind: ser.Define, Value: obj.Name("FirstLife")})
+			continue
+		}
+		rev.Ops = append(rev.Ops, defineOp(n, true))
+	}
+	for _, n := range g.nums() {
+		if g[n].K == "free" {
 			rev.Ops = append(rev.Ops, ser.Op{Num: uint32(n), Kind: ser.Free, Style: []ser.FreeStyle{ser.Linked, ser.Retired}[rng.Intn(2)]})
 		}
 	}
 	doc := &ser.Doc{Version: src.Version, Revisions: []ser.Revision{rev}}
+	if len(reused) > 0 {
+		r2 := ser.Revision{Kind: kind, Trailer: trailer()}
+		r3 := ser.Revision{Kind: kind, Trailer: trailer()}
+		for _, n := range reused {
+			r2.Ops = append(r2.Ops, ser.Op{Num: uint32(n % genBase), Kind: ser.Free, Style: ser.Linked})
+			r3.Ops = append(r3.Ops, defineOp(n, false))
+		}
+		doc.Revisions = append(doc.Revisions, r2, r3)
+	}
 	opt := &ser.Options{Seed: spec.Seed}
 	if spec.Enc != "none" {
 		id0 := make([]byte, 16)
@@ -356,19 +424,21 @@ func (src *Source) viaSer(g Graph, vals map[int]obj.Value, spec SrcSpec, rng *ra
 		if err != nil {
 			return err
 		}
-		doc.Revisions[0].Trailer["ID"] = obj.Array{obj.Str(id0), obj.Str(id0)}
-		if rng.Intn(2) == 0 {
-			doc.Revisions[0].Trailer["Encrypt"] = enc
-		} else {
-			encNum := pages + 1
+		var encV obj.Value = enc
+		if rng.Intn(2) != 0 {
+			encNum := free
 			doc.Revisions[0].Ops = append(doc.Revisions[0].Ops, ser.Op{Num: uint32(encNum), Kind: ser.Define, Value: enc})
-			doc.Revisions[0].Trailer["Encrypt"] = obj.Ref{Num: uint32(encNum)}
+			encV = obj.Ref{Num: uint32(encNum)}
 			doc.EncryptRef = obj.Ref{Num: uint32(encNum)}
+		}
+		for i := range doc.Revisions {
+			doc.Revisions[i].Trailer["ID"] = obj.Array{obj.Str(id0), obj.Str(id0)}
+			doc.Revisions[i].Trailer["Encrypt"] = encV
 		}
 		identity := map[uint32]bool{}
 		for n, nd := range g {
 			if nd.K == "val" && nd.V.T == "st" && nd.V.CF == "identity" {
-				identity[uint32(n)] = true
+				identity[uint32(n%genBase)] = true
 			}
 		}
 		ivr := rand.New(rand.NewSource(spec.Seed + 5))
